@@ -1,6 +1,7 @@
 package props
 
 import (
+	"math"
 	"fmt"
 	"sync"
 	"time"
@@ -223,6 +224,25 @@ func c05Run(c *fw.Ctx, i int) {
 			}
 			if mn := (gedcom.DateNodes{node, prevNode}).Minimum(); mn != prevNode {
 				bad("minimum-adjacent-days", prevY, prevM, prevD, "Minimum of %q and the day before is not the day before", node.Value())
+			}
+			// the scale as similarity uses it: two consecutive days are less than
+			// 1/365 of a year apart, whatever the year numbers say (31 Dec / 1
+			// Jan), so under any margin of a quarter of a year or more they are
+			// nearly the same date, and the score is the documented parabola of
+			// the distance on the scale
+			for _, my := range []float64{0.25, 0.5, 1.5, 3} {
+				if (y+d)%4 != int(my*4)%4 && !(m == 1 && d == 1) {
+					continue
+				}
+				c.Count("similarity-of-adjacent-days", 1)
+				dist := node.Years() - prevNode.Years()
+				want := 1 - (dist/my)*(dist/my)
+				if got := pr.Similarity(dr, my); got < 0.999 || got > 1 || math.Abs(got-want) > 1e-9 {
+					bad("similarity-adjacent-days", prevY, prevM, prevD, "DateRange.Similarity of %q and the next day with a margin of %v years is %v; they are %.6f years apart on the Years scale, which gives %v", prevNode.Value(), my, got, dist, want)
+				}
+				if got := prevNode.Similarity(node, my); got < 0.999 || got > 1 {
+					bad("similarity-adjacent-days-node", prevY, prevM, prevD, "DateNode.Similarity of %q and the next day with a margin of %v years is %v", prevNode.Value(), my, got)
+				}
 			}
 			if mx := (gedcom.DateNodes{node, prevNode}).Maximum(); mx != node {
 				bad("maximum-adjacent-days", prevY, prevM, prevD, "Maximum of %q and the day before is not %q", node.Value(), node.Value())
